@@ -1,6 +1,7 @@
 import PrimitivModel.Model.Graph
 import PrimitivModel.Lemmas.GraphForward
 import PrimitivModel.Lemmas.GraphFailure
+import PrimitivModel.Lemmas.GraphFailureSweep
 /-
 Property C10 — failures are exceptions and change nothing: the graph part (rejected calls of
 `Graph::add_operator` / `forward` / `backward`, and failures injected while node values are
@@ -291,6 +292,47 @@ theorem Alloc.backward_failure_atomic {T : TOps τ} {s : State τ} (hs : Reachab
   | crash => exact absurd he hnc
 example : (backward T0 sF ⟨3, 0⟩).2 = .error .error ∧ (backward T0 sF ⟨3, 0⟩).1.log = [1] ∧
     (backward T0 sF ⟨3, 0⟩).1.params.grad 0 = 0 := ⟨rfl, rfl, rfl⟩
+
+/-- No gradient of a node is pending between the calls of a history (C06's invariant, here for
+the histories of this file, failing calls included). -/
+theorem reachable_gradsInvalid {T : TOps τ} {s : State τ} (h : Reachable T s) : AllGradsInvalid s := by
+  obtain ⟨params, sample, h, hadm, rfl⟩ := h
+  exact run_gradsInvalid T (WF.empty params sample) (AllGradsInvalid.empty params sample) h hadm
+example : Reachable T0 (run T0 sF [.backward ⟨3, 0⟩]) :=
+  reachable_run sF_reachable (by simp [Op.Admissible])
+
+/-- `backward a` can fail in two ways only: `a` is not a node of this graph (nothing happens), or
+the forward evaluation of `a` throws, and then `backward` throws the same exception in the state
+that `forward` reached.  In particular the reverse sweep itself never fails and never reaches
+undefined behaviour in a reachable state. -/
+theorem Alloc.backward_fails_only_in_forward {T : TOps τ} {s s' : State τ} (hs : Reachable T s) {a : Addr}
+    {e : Err} (h : backward T s a = (s', .error e)) :
+    (s.validAddr a = false ∧ s' = s ∧ e = .crash) ∨
+    (s.validAddr a = true ∧ (∃ n, s.node? a = some n ∧ n.value = none) ∧
+      (forward T s a).2 = .error e ∧ s' = (forward T s a).1 ∧ e = .error) := by
+  rcases backward_error_cases T (reachable_wf hs) (reachable_gradsInvalid hs) h with h1 | ⟨h1, h2, h3, h4⟩
+  · exact .inl h1
+  · refine .inr ⟨h1, h2, h3, h4, ?_⟩
+    have hnc := (forward_spec T (reachable_wf hs) h1).nocrash
+    cases e with
+    | error => rfl
+    | crash => exact absurd h3 hnc
+example : (backward T0 sF ⟨3, 0⟩).2 = .error .error ∧ (backward T0 sF ⟨4, 0⟩).2 = .error .crash ∧
+    (backward T0 s0 ⟨3, 0⟩).2 = .ok () := ⟨rfl, rfl, rfl⟩
+
+/-- A failing `backward`, wherever it fails, leaves the parameters — values and gradients — and
+all node gradients unchanged, every value stored before in place, and a well-formed graph. -/
+theorem Alloc.backward_failure_changes_no_gradient {T : TOps τ} {s s' : State τ} (hs : Reachable T s)
+    {a : Addr} {e : Err} (h : backward T s a = (s', .error e)) :
+    s'.params = s.params ∧ (∀ b, (s'.node? b).map (·.grad) = (s.node? b).map (·.grad)) ∧ WF s' ∧
+    (∀ (b : Addr) (n : NodeInfo τ) (v : τ), s.node? b = some n → n.value = some v →
+      ∃ n', s'.node? b = some n' ∧ n'.value = some v) := by
+  rcases backward_error_cases T (reachable_wf hs) (reachable_gradsInvalid hs) h with ⟨_, rfl, _⟩ | ⟨_, _, _, rfl⟩
+  · exact ⟨rfl, fun _ => rfl, reachable_wf hs, fun b n v hn hv => ⟨n, hn, hv⟩⟩
+  · obtain ⟨l, ext, _⟩ := forward_ext T a (reachable_wf hs)
+    exact ⟨ext.params, ext.node_grad, ext.wf (reachable_wf hs), fun b n v hn hv => ext.node_mono hn hv⟩
+example : (backward T0 sF ⟨3, 0⟩).2 = .error .error ∧ (backward T0 sF ⟨3, 0⟩).1.params.grad 0 = sF.params.grad 0 :=
+  ⟨rfl, rfl⟩
 
 /-- When the node already has its value `backward` evaluates nothing at all (no allocation for
 values can fail): the log, the stream and all values are unchanged. -/
